@@ -428,6 +428,16 @@ def r7_every_pair_compared(ctx):
     )
 
 
+def _more(name):
+    def run(ctx):
+        from . import more
+
+        getattr(more, name)(ctx)
+
+    run.__name__ = name
+    return run
+
+
 RULES = [
     ("C12.R7", "P1", r7_every_pair_compared, "every pair of applicable types is compared"),
     ("C12.R6", "P1", r6_dependent_pairs, "dependent vs dependent: ordered by bounds, mirrored"),
@@ -436,4 +446,6 @@ RULES = [
     ("C12.R2", "P1", r2_reflexive_first, "reflexive shortcut first"),
     ("C12.R3", "P1", r3, "no zip of two types' parameters without a length guard"),
     ("C12.R4", "P1", r4_tables, "decision tables of the Order-valued code"),
+    ("C12.R8", "P1", _more("dependent_lt_is_antisymmetric"), "parameter-wise strict order is antisymmetric (interpreted)"),
+    ("C12.R9", "P1", _more("foreign_operand_is_deferred"), "class-specific order hooks defer on foreign operands"),
 ]
